@@ -35,6 +35,50 @@ type Solver struct {
 	timeoutMs int
 	log       io.Writer
 	lastErr   string
+	inPath    bool
+	pathLits  []*Term // literals asserted in the current path frame (re-asserted after a restart)
+}
+
+// PathBegin opens the frame that holds the path condition of one path.
+func (s *Solver) PathBegin() {
+	if s.inPath {
+		s.PathEnd()
+	}
+	if s.nEmitted > 150000 {
+		s.Restart()
+	}
+	s.buf.WriteString("(push 1)\n")
+	s.inPath = true
+	s.pathLits = s.pathLits[:0]
+}
+
+// PathAssert adds a literal to the path frame (no check).
+func (s *Solver) PathAssert(l *Term) {
+	if l.op == OpConst && l.k != 0 {
+		return
+	}
+	s.pathLits = append(s.pathLits, l)
+	s.emit(l)
+	s.buf.WriteString("(assert ")
+	s.buf.WriteString(termRef(l))
+	s.buf.WriteString(")\n")
+}
+
+// PathEnd closes the path frame.
+func (s *Solver) PathEnd() {
+	if s.inPath {
+		s.buf.WriteString("(pop 1)\n")
+		s.inPath = false
+	}
+}
+
+// PathCheck decides path-frame ∧ extra (extra may be nil).
+func (s *Solver) PathCheck(extra *Term, wantModel bool, nvars int) (Result, []uint64) {
+	var lits []*Term
+	if extra != nil {
+		lits = []*Term{extra}
+	}
+	return s.Check(lits, wantModel, nvars)
 }
 
 func solverArgv(kind string, timeoutMs int) []string {
@@ -44,7 +88,7 @@ func solverArgv(kind string, timeoutMs int) []string {
 	case "z3-new":
 		return []string{"z3-new", "-in", "-smt2"}
 	case "cvc5":
-		return []string{"cvc5", "--incremental", "--lang=smt2", "--produce-models", fmt.Sprintf("--tlimit-per=%d", timeoutMs)}
+		return []string{"cvc5", "--incremental", "--lang=smt2", "--produce-models", "--global-declarations", fmt.Sprintf("--tlimit-per=%d", timeoutMs)}
 	}
 	panic("unknown solver " + kind)
 }
@@ -87,7 +131,11 @@ func (s *Solver) start() error {
 		s.buf.WriteString("(set-option :produce-models true)\n")
 		fmt.Fprintf(&s.buf, "(set-option :timeout %d)\n", s.timeoutMs)
 	}
+	if s.kind != "cvc5" {
+		s.buf.WriteString("(set-option :global-declarations true)\n")
+	}
 	s.buf.WriteString("(set-logic QF_BV)\n")
+	s.inPath = false
 	return nil
 }
 
@@ -103,7 +151,20 @@ func (s *Solver) Close() {
 // restart the process (bounds memory growth of the define-fun table).
 func (s *Solver) Restart() error {
 	s.Close()
-	return s.start()
+	wasIn := s.inPath
+	lits := append([]*Term(nil), s.pathLits...)
+	if err := s.start(); err != nil {
+		return err
+	}
+	if wasIn {
+		s.buf.WriteString("(push 1)\n")
+		s.inPath = true
+		s.pathLits = s.pathLits[:0]
+		for _, l := range lits {
+			s.PathAssert(l)
+		}
+	}
+	return nil
 }
 
 func (s *Solver) emit(t *Term) {
@@ -139,6 +200,8 @@ func (s *Solver) emit(t *Term) {
 	fmt.Fprintf(&s.buf, "(define-fun t%d () %s %s)\n", id, sortName(t.w), termBody(t))
 }
 
+var slowQ, _ = strconv.Atoi(os.Getenv("VERIF_SLOWQ"))
+
 type Result int
 
 const (
@@ -153,9 +216,15 @@ func (r Result) String() string { return [...]string{"unsat", "sat", "unknown"}[
 // the values of all declared variables with index < nvars are returned.
 func (s *Solver) Check(lits []*Term, wantModel bool, nvars int) (Result, []uint64) {
 	t0 := time.Now()
-	defer func() { s.timeNs += time.Since(t0).Nanoseconds() }()
+	defer func() {
+		d := time.Since(t0)
+		s.timeNs += d.Nanoseconds()
+		if slowQ > 0 && d > time.Duration(slowQ)*time.Millisecond && len(lits) > 0 {
+			fmt.Fprintf(os.Stderr, "SLOWQ %dms nlits=%d last=%s\n", d.Milliseconds(), len(lits), lits[len(lits)-1].String())
+		}
+	}()
 	s.queries++
-	if s.nEmitted > 200000 {
+	if s.nEmitted > 400000 {
 		if err := s.Restart(); err != nil {
 			s.errors++
 			s.lastErr = err.Error()
